@@ -195,7 +195,7 @@ void console_putchar(console_t *c, char d)
 
 pt_state_t console_eval(pt_t *pt, console_t *c, const char *cmd)
 {
-	uint16_t *i = &c->scratch.u16[sizeof(c->scratch.u16)-1];
+	uint16_t *i = &c->eval_pos;
 
 	PT_BEGIN(pt);
 
